@@ -3,7 +3,7 @@
 MC : specs/sync/Queue.tla - all interleavings of put / put_nowait / get / get_nowait / task_done /
      join (each with timeouts), clock advances and cancellations of pending futures, for FIFO, LIFO
      and priority queues of maxsize 0..2(3); invariants and action properties state the property.
-S2C: every operation sequence enumerated by TLC (path enumeration over four alphabets, see
+S2C: every operation sequence enumerated by TLC (path enumeration over five alphabets, see
      GEN_FAMILIES) plus seeded TLC simulation walks are replayed on the real Queue / LifoQueue /
      PriorityQueue on the virtual loop; the projection (every put/get/join future's state, every
      delivered item, qsize/empty/full, exception class of the call) is compared after every step.
@@ -145,6 +145,8 @@ GEN_FAMILIES = [
                "Prios": "{1, 2}", "MaxAdvance": 2, "NJ": 1}, 5, 6),
     ("join", {"Ops": '{"put_nowait", "get_nowait", "task_done", "join", "advance", "cancel_join"}', "Timeouts": "{1, 999}",
               "MaxSizes": "{0}", "Kinds": '{"fifo"}', "MaxAdvance": 1, "NJ": 3}, 6, 7),
+    ("acct", {"Ops": '{"put", "get", "task_done", "join"}', "Timeouts": "{999}", "MaxSizes": "{1}", "Prios": "{1}",
+              "NJ": 2}, 6, 7),
 ]
 
 TRACE_IDS = 100
@@ -166,7 +168,7 @@ def run(ctx):
            overrides=ctx.pick({}, {"NP": 4, "NG": 3, "NJ": 2, "MaxSizes": "{0, 1, 2, 3}"}),
            required_actions=["Put", "PutNowait", "Get", "GetNowait", "TaskDone", "Join", "Advance",
                              "CancelPut", "CancelGet", "CancelJoin"])
-    # 2. spec -> code: all paths up to L over four alphabets
+    # 2. spec -> code: all paths up to L over five alphabets
     rule = []
     for name, ov, lq, lt in GEN_FAMILIES:
         L = ctx.pick(lq, lt)
